@@ -26,19 +26,21 @@ def plan(tier, seed):
     q = tier == "quick"
     specs = shards("docs", 4000 if q else 250000, 250 if q else 4000, seed)
     specs += shards("per_dialect", 80 * (3 if q else 60), 80, seed)
+    specs += shards("reused", 2000 if q else 100000, 250 if q else 4000, seed)
     specs += shards("corpus", 1, 1, seed)
     return specs
 
 
 def run_shard(spec, M):
     fam, seed = spec["family"], spec["seed"]
-    if fam in ("docs", "per_dialect"):
+    if fam in ("docs", "per_dialect", "reused"):
         names = sorted(dialects.master())
+        reused = doccheck.Reused(rng(seed, ID, "reused", spec["shard"])) if fam == "reused" else None
         for i in range(spec["start"], spec["start"] + spec["n"]):
             kw = {"dialect": names[i % 80], "size": "small"} if fam == "per_dialect" else {}
             R = doccheck.make_doc(seed, fam, i, **kw)
             case = {"kind": "doc", "family": fam, "index": i, "seed": seed, "text": R.text, "kw": kw}
-            doccheck.check_doc(R, M, case, "C03")
+            doccheck.check_doc(R, M, case, "C03", reused=reused)
             if i % 499 == 0:
                 M.sample({"dialect": R.dialect, "text": short(R.text, 400)})
     elif fam == "corpus":
